@@ -22,20 +22,20 @@ type harnessSpec struct {
 	Func     string `json:"func"` // harness entry point
 	MaxPaths int64  `json:"max_paths,omitempty"`
 	// per-tier wall budget in seconds (0 = default)
-	QuickS    int `json:"quick_s,omitempty"`
-	ThoroughS int `json:"thorough_s,omitempty"`
+	QuickS       int  `json:"quick_s,omitempty"`
+	ThoroughS    int  `json:"thorough_s,omitempty"`
 	ThoroughOnly bool `json:"thorough_only,omitempty"`
-	StrMax   int  `json:"str_max,omitempty"`
+	StrMax       int  `json:"str_max,omitempty"`
 	// RaceHarness: native-only harness that reruns a counterexample of this harness concurrently; a data
 	// race reported by the race detector confirms a "write to shared data" counterexample
 	RaceHarness string `json:"race_harness,omitempty"`
-	MaxSteps int64 `json:"max_steps,omitempty"`
+	MaxSteps    int64  `json:"max_steps,omitempty"`
 }
 
 type checkSpec struct {
-	Harnesses []harnessSpec `json:"harnesses"`
-	Assumptions []string    `json:"assumptions"`
-	Outside   []string      `json:"outside"`
+	Harnesses   []harnessSpec `json:"harnesses"`
+	Assumptions []string      `json:"assumptions"`
+	Outside     []string      `json:"outside"`
 }
 
 type knownFinding struct {
@@ -227,14 +227,14 @@ func writeCex(dir string, name string, c *gx.Cex) (string, error) {
 // ---- evidence ----
 
 type evidence struct {
-	PropertyID string                 `json:"property_id"`
-	Tier       string                 `json:"tier"`
-	Seed       int                    `json:"seed"`
-	Level      string                 `json:"level"`
-	Coverage   map[string]interface{} `json:"coverage"`
-	Assumptions []string              `json:"assumptions"`
-	WallS      float64                `json:"wall_s"`
-	Violations int                    `json:"violations"`
+	PropertyID  string                 `json:"property_id"`
+	Tier        string                 `json:"tier"`
+	Seed        int                    `json:"seed"`
+	Level       string                 `json:"level"`
+	Coverage    map[string]interface{} `json:"coverage"`
+	Assumptions []string               `json:"assumptions"`
+	WallS       float64                `json:"wall_s"`
+	Violations  int                    `json:"violations"`
 }
 
 func writeEvidence(id string, ev *evidence) {
@@ -405,7 +405,7 @@ func cmdCheck(args []string) int {
 	var samples []interface{}
 	type pendingCex struct {
 		path, pkg, harness, label, kind string
-		reach                     bool
+		reach                           bool
 	}
 	var pend []pendingCex
 	var engineErrs []string
@@ -582,24 +582,24 @@ func cmdCheck(args []string) int {
 		"exhaustive":                    len(engineErrs) == 0,
 		"explanation": "states = completed symbolic paths of the real code (go/ssa) under the harness; transitions = branch/choice points decided by the executor and z3; " +
 			"every obligation is a z3 query over all values of the symbolic leaves on that path; traces_validated = solver models replayed against the natively compiled code with the same harness",
-		"paths_pruned_by_assumption": total.Pruned,
-		"paths_infeasible":           total.Infeasible,
-		"obligations":                total.Asserts,
+		"paths_pruned_by_assumption":       total.Pruned,
+		"paths_infeasible":                 total.Infeasible,
+		"obligations":                      total.Asserts,
 		"obligations_discharged_by_solver": total.AssertsProved,
 		"obligations_decided_concretely":   total.AssertsConcrete,
-		"queries":            map[string]int64{"sat": total.Sat, "unsat": total.Unsat, "unknown": total.Unknown},
-		"solver":             *solver + " (persistent -in process per worker)",
-		"solver_s":           round3(total.SolverTime.Seconds()),
-		"ssa_instructions":   total.Steps,
-		"functions_encoded":  fl,
-		"models_used":        ml,
-		"bounds":             total.Bounds,
-		"harnesses":          perHarness,
-		"known_findings_active": keys(activeKnown),
-		"unconfirmed_counterexamples": unconfirmed,
-		"reach_witness_unconfirmed":   reachUnconfirmed,
-		"outside_the_claim":           spec.Outside,
-		"translator_selftest":         selfInfo,
+		"queries":                          map[string]int64{"sat": total.Sat, "unsat": total.Unsat, "unknown": total.Unknown},
+		"solver":                           *solver + " (persistent -in process per worker)",
+		"solver_s":                         round3(total.SolverTime.Seconds()),
+		"ssa_instructions":                 total.Steps,
+		"functions_encoded":                fl,
+		"models_used":                      ml,
+		"bounds":                           total.Bounds,
+		"harnesses":                        perHarness,
+		"known_findings_active":            keys(activeKnown),
+		"unconfirmed_counterexamples":      unconfirmed,
+		"reach_witness_unconfirmed":        reachUnconfirmed,
+		"outside_the_claim":                spec.Outside,
+		"translator_selftest":              selfInfo,
 	}
 	ev.Assumptions = append([]string{"z3 4.8.12 answers are correct; go/ssa (x/tools v0.29.0) lowers the source faithfully; the gosym executor implements SSA semantics (validated by replaying solver models natively)"}, spec.Assumptions...)
 	for _, m := range ml {
@@ -721,10 +721,10 @@ func cmdReplay(args []string) int {
 // VerifOrderLemmas of its package, which every check relying on the reduction runs first.
 func orderLemmas() map[string]bool {
 	return map[string]bool{
-		"(github.com/Comcast/sheens/match.Bindings).Copy": true,
-		"github.com/Comcast/sheens/match.copyMap":         true,
-		"(github.com/Comcast/sheens/core.StepProps).Copy": true,
-		"(*github.com/Comcast/sheens/sio.Crew).GetChanged": true, // lemma: sio.VerifSioOrderLemmas
+		"(github.com/Comcast/sheens/match.Bindings).Copy":   true,
+		"github.com/Comcast/sheens/match.copyMap":           true,
+		"(github.com/Comcast/sheens/core.StepProps).Copy":   true,
+		"(*github.com/Comcast/sheens/sio.Crew).GetChanged":  true, // lemma: sio.VerifSioOrderLemmas
 		"(*github.com/Comcast/sheens/core.FuncAction).Exec": true, // lemma: core.VerifCoreOrderLemmas
 	}
 }
